@@ -355,7 +355,7 @@ Proof.
               rewrite Eaa. unfold g1. cbn [g_flight]. unfold g_budget in Hfl. rewrite P in Hfl.
               destruct (Z.leb_spec (g_flight g) 1); [reflexivity|lia].
            ++ rewrite K1, Etx, L0. destruct Fa as (_ & _ & ->).
-              unfold phase_ok, g_ack, g1. cbn. exact G0.
+              unfold phase_ok, g_ack, g1. cbn. split; [exact G0|reflexivity].
         -- left. unfold same_epoch, g_ack, g1. cbn [g_iss g_stream g_acked g_hw g_fin].
            split; [reflexivity|]. split; [exists []; symmetry; apply app_nil_r|].
            split; [lia|]. split; [lia|]. auto.
